@@ -196,3 +196,45 @@ def rule_operator_orientation(ctx):
                                           "evaluates <psi|O^T|psi>", where=f"{f.module.relpath}:{c.lineno}", operand="transposed"))
     r.floor(n, 1, "hand-contracted expectation values with an explicit operator tensor")
     return r
+
+
+def rule_density_orientation(ctx):
+    r = RuleResult(
+        "density-orientation",
+        "MatrixProductState.partial_trace_to_mpo builds rho = |psi><psi| from the state and a second copy whose kept physical "
+        "indices are renamed; the copy that carries the indices finally declared *lower* (column) must be the conjugated one "
+        "and the one carrying the *upper* (row) indices the plain state — otherwise the MPO is rho transposed (= conj(rho)), "
+        "invisible for real states",
+    )
+    f = ctx.prog.func("quimb.tensor.tn1d.core", "MatrixProductState.partial_trace_to_mpo")
+    if f is None:
+        raise AnalysisError("partial_trace_to_mpo not found")
+    where = f"{f.module.relpath}:{f.lineno}"
+    view = [c for c in ast.walk(f.node) if isinstance(c, ast.Call) and isinstance(c.func, ast.Attribute) and c.func.attr in ("view_as_", "view_as")]
+    if not view:
+        raise AnalysisError("partial_trace_to_mpo: final view_as_ not found")
+    kws = {k.arg: src_of(k.value) for k in view[-1].keywords if k.arg}
+    lower_id = kws.get("lower_ind_id")
+    # the copy that is reindexed with that id
+    renamed = None
+    for c in ast.walk(f.node):
+        if isinstance(c, ast.Call) and isinstance(c.func, ast.Attribute) and c.func.attr in ("reindex_sites_", "reindex_sites") and c.args and src_of(c.args[0]) == lower_id and isinstance(c.func.value, ast.Name):
+            renamed = c.func.value.id
+    if renamed is None or lower_id is None:
+        raise AnalysisError("partial_trace_to_mpo: the copy carrying the lower indices was not identified")
+    defs = [a.value for a in ast.walk(f.node) if isinstance(a, ast.Assign) and any(isinstance(t, ast.Name) and t.id == renamed for t in a.targets)]
+    conj_renamed = any(isinstance(x, ast.Attribute) and x.attr == "H" or (isinstance(x, ast.Call) and getattr(x.func, "attr", None) in ("conj", "conj_")) for d in defs for x in ast.walk(d))
+    # the other operand of the combination
+    comb = None
+    for a in ast.walk(f.node):
+        if isinstance(a, ast.BinOp) and isinstance(a.op, (ast.BitAnd, ast.BitOr)) and any(isinstance(x, ast.Name) and x.id == renamed for x in (a.left, a.right)):
+            comb = a.right if isinstance(a.left, ast.Name) and a.left.id == renamed else a.left
+    conj_other = comb is not None and any(isinstance(x, ast.Attribute) and x.attr == "H" or (isinstance(x, ast.Call) and getattr(x.func, "attr", None) == "conj") for x in ast.walk(comb))
+    if conj_renamed and not conj_other:
+        r.ok("MatrixProductState.partial_trace_to_mpo", sample={"lower (column) indices on": f"{renamed} (conjugated)", "upper (row) indices on": src_of(comb) if comb is not None else "?"})
+    else:
+        r.bad(Finding("density-orientation", "MatrixProductState.partial_trace_to_mpo",
+                      f"the copy `{renamed}` that carries the indices declared lower ({lower_id}) is {'conjugated' if conj_renamed else 'NOT conjugated'} and the other operand "
+                      f"`{src_of(comb) if comb is not None else '?'}` is {'conjugated' if conj_other else 'not conjugated'}: the MPO is the transpose of the reduced density matrix",
+                      where=where, operand="transposed"))
+    return r
